@@ -29,8 +29,10 @@ def gen_multinode_case(r, big=False):
     pos = None   # unknown after a read
     for _ in range(r.randrange(1, 16)):
         x = r.random()
-        if x < 0.45:
+        if x < 0.35:
             ops.append([0])
+        elif x < 0.55:
+            ops.append([1, r.choice([0, 1, 1, 2, 3, 5, 8, 13, 50, bs, bs + 1, max(0, total // 2), total, total + 1, -1])])
         else:
             wh = r.choice([0, 0, 0, 1, 2, 2, 3])
             if wh == 3:
@@ -44,6 +46,29 @@ def gen_multinode_case(r, big=False):
                 ops.append([2, t - total, 2])
             else:
                 ops.append([2, r.randrange(-total - 1, total + 2), 1])
+    return vfmt([nodes, bs, ops])
+
+def gen_multinode_big(r):
+    """nodes larger than 64 KiB so that consume() takes the seeker-as-skipper branch, inside a node, up to its
+    end, across one or two node borders and beyond the end of the archive"""
+    n = r.choice([1, 2, 2, 3])
+    sizes = [r.choice([100, 65536, 65537, 70000, 140000]) for _ in range(n)]
+    nodes = [bytes(((i * 7 + 13 * (i >> 8)) + 31 * k) & 0xff for i in range(sz)) for k, sz in enumerate(sizes)]
+    total = sum(sizes)
+    bs = r.choice([4096, 10240, 65536, 100000])
+    ops, pos = [], 0
+    for _ in range(r.randrange(2, 7)):
+        x = r.random()
+        left = total - pos
+        if x < 0.35:
+            ops.append([0]); pos = None
+        elif x < 0.9 or pos is None:
+            k = r.choice([65537, 66000, 70001, 135000, total, total + 1, 1000] + ([left, left + 1, max(0, left - 1)] if pos is not None else []))
+            ops.append([1, k])
+            pos = None
+        if pos is None:
+            t = r.choice([0, sizes[0], max(0, sizes[0] - 1), r.randrange(0, total + 1)])
+            ops.append([2, t, 0]); pos = t
     return vfmt([nodes, bs, ops])
 
 def multinode_oracle(case_line, impl_line):
@@ -66,6 +91,20 @@ def multinode_oracle(case_line, impl_line):
                         "op %d: read at stream offset %d returned %r (position %d); the concatenated stream has %r there" %
                         (k, a, b[:16], p, flat[a:a + max(1, len(b))][:16]))
             a = p
+        elif op[0] == 1:
+            n = op[1]
+            if 0 <= n <= len(flat) - a:
+                if o[1] != n or o[2] != a + n:
+                    return ("C05:multinode:consume-depends-on-split",
+                            "op %d: consume(%d) at stream offset %d of a %d-byte stream split as %s returned %d, position %d" %
+                            (k, n, a, len(flat), [len(x) for x in nodes], o[1], o[2]))
+                a += n
+            else:
+                if o[1] >= 0:
+                    return ("C05:multinode:short-stream-consumed", "op %d: consume(%d) with only %d bytes left returned %d" % (k, n, len(flat) - a, o[1]))
+                if n < 0:
+                    continue
+                return None      # the stream is at its end in an error state
         else:
             off, wh = op[1], op[2]
             t = off if wh == 0 else a + off if wh == 1 else len(flat) + off if wh == 2 else None
@@ -85,6 +124,7 @@ def multinode(rep, r, quick):
     exe = vlib.compile_harness("multiNode", "asan", private=True)
     n = 1500 if quick else 60000
     cases = [gen_multinode_case(r) for _ in range(n)] + [gen_multinode_case(r, big=True) for _ in range(20 if quick else 600)]
+    cases += [gen_multinode_big(r) for _ in range(40 if quick else 1500)]
     # the same stream under different splits: the oracle must accept both, and seek+read-to-end must agree
     st = vlib.correspond(rep, "multiNode", runner, exe, vlib.load_corpus("C05-multinode") + cases, oracle=multinode_oracle)
     return st
@@ -115,6 +155,8 @@ def run(rep):
     nb = 150 if quick else 4000
     for _ in range(nb):
         cases.append(readcore.gen_boundary_case(r)); group_of.append(-1)
+    for _ in range(30 if quick else 600):
+        cases.append(readcore.gen_seekskip_case(r)); group_of.append(-1)
     st = vlib.correspond(rep, "readCore", runner, core, cases, oracle=readcore.core_oracle_c01)
     # oracle across partitions, on the implementation's own outputs
     path = vlib.write_cases(cases, "c05.cases")
